@@ -258,5 +258,10 @@ def finalize_shard(ck):
 
 
 def finalize(ck):
+    if ck.tier == "thorough":
+        # the repository's own tests as an additional monitored workload (DESIGN section 4)
+        from vf import pytest_monitors
+
+        pytest_monitors.run_repo_tests_under_monitors(ck, PID)
     if ck.monitors.get("contract_evaluations.relative_permeabilities", 0) == 0:
         ck.inconclusive_because("the postcondition on relative_permeabilities never fired")
